@@ -69,11 +69,11 @@ def rawArgsPinned : Bool :=
 theorem raw_args_pinned : rawArgsPinned = true := by decide +kernel
 
 /-- the names handed to root-relative calls are the decoded entry name (cleaned when decoded), its
-parent, the path a root-relative walk reports, or the daemon's cleaned subdirectory argument. A name
+parent (`parent := filepath.Dir(f.Name)` in `createDevice` since the repair of D35), the path a root-relative walk reports, or the daemon's cleaned subdirectory argument. A name
 with a trailing slash must never reach an `*os.Root` method: the kernel then follows a symbolic link
 in the last position and the root's own check does not see it (D28; validated by the rootfs suite) -/
 def rootNamesClean : Bool :=
-  rootNameArgs_receiver.all (fun a => ["f.Name", "filepath.Dir(f.Name)", "path", "rt.DestRoot", "fn", "root"].contains a) &&
+  rootNameArgs_receiver.all (fun a => ["f.Name", "filepath.Dir(f.Name)", "parent", "path", "rt.DestRoot", "fn", "root"].contains a) &&
   rootNameArgs_rsyncd.all (fun a => ["subdir"].contains a) &&
   rootNameArgs_sender.all (fun a => ["name", "path", "fl.path"].contains a) &&
   receiverNameCleaned && daemonSubdirCleaned && senderWalkRootCleaned
